@@ -4,23 +4,42 @@
        parse (print style s)  is independent of  style
    for every story s of the documented language and every surface style (legacy <<...>> forms vs
    @-forms, # comment lines, trailing // comments on every line kind, uniform indentation of block
-   bodies).  That statement is NOT proved: the parser (core.py / blocks.py) is not modelled in
-   Gallina yet.  It is decided on every run by the model-independent differential oracle of
-   harness/c17.py (each generated story printed in every style, compiled by the real
-   BardCompiler, compiled dicts compared with the baseline style).
+   bodies).  The parser is modelled in Gallina (Compiler/ParseMain.v: the `parse` main loop with its
+   comment pre-pass; Compiler/ParseBlocks.v: the block extractors), the printer is not, so the
+   statements below are about line lists, not about source ASTs.
 
-   What IS proved, for all ASCII strings / line lists, is the helper-level half: the two pure
-   functions every line classifier of the parser relies on for comments and indentation,
-       strip_inline_comment          (preprocessing.py)   model: Compiler/Lex.v
-       detect_and_strip_indentation  (indentation.py)     model: Compiler/Lex.v
-   behave as the property needs.  The theorems that are the helper-level part of the larger claim
-   carry the suffix _partial; what is missing in each of them is the composition through the line
-   classifiers (which of them call the helper, and what they do with the blank it leaves).
-   The model is tied to /repo by the correspondence run of harness/c17.py.
-
-   Proofs are in Proofs/LexProofs.v. *)
-From Coq Require Import String Ascii List Bool.
-From Bardic Require Import PyStr Lex LexProofs.
+   WHOLE-INPUT THEOREMS (all line lists; Proofs/SurfaceProofs.v):
+     trailing comments   trailing_comments_invisible: appending `<blanks>//<text>` to ANY subset of the
+                         lines that the pre-pass treats as story lines leaves `parse` unchanged, for all
+                         oracles and ALL block extractors.  This is the full "trailing // comments are
+                         invisible" clause for the modelled compiler; its side conditions (which lines,
+                         which texts, no trailing blank of the line's own) are exact: each has a
+                         counterexample below.
+     # comment lines     hash_line_invisible_top_level: inserting a # line in front of a line where the
+                         pre-pass and the main loop are at top level leaves `parse` unchanged (up to
+                         the line index inside a diagnostic), for all extractors that are local in the
+                         sense of xs_local; hash_line_invisible_blockfree: unconditionally for inputs in
+                         which every line is classified by the main loop itself (no block construct).
+                         NOT covered: # lines inside a block that an extractor consumes (@if/@for/@py
+                         bodies, join blocks), inside the @metadata block, after the last line; and
+                         xs_local is not proved of the real extractors (it is a statement about them
+                         reading only their own block).
+     legacy = @          for_block_forms_agree_partial: a loop block opened with `@for v in c:` or with
+                         `<<for v in c>>` is extracted to the same token, whatever surrounds it (whole
+                         block, extractor level); if/elif/else/endif_forms_agree_partial: both forms of
+                         each header take the conditional extractor to the same state (header level).
+                         Missing in both: composition through `parse` (the other extractor calls see
+                         a line list that differs in that header), and <<py vs @py: (different dedent).
+   HELPER-LEVEL THEOREMS (suffix _partial; Proofs/LexProofs.v): the strip_inline_comment laws and
+   the dedent laws (uniform indentation invisible, idempotent).  What is missing in the indentation
+   ones is the composition through the extractors that call the dedenter.
+   DIFFERENTIAL ONLY (harness/c17.py, every run): parse (print style s) for every style and two-part
+   style combination of generated stories against the real BardCompiler; the tie of the models to
+   /repo. *)
+From Coq Require Import String Ascii List Bool Arith.
+From Bardic Require Import PyStr Value Compiled Lex LexProofs.
+From Bardic Require Import ParseBase ParseLine ParseMain ParseCheck ParseProofs SurfaceProofs.
+From Bardic Require ParseBlocks ParseBlocksInst ParseAllProofs.
 Import ListNotations.
 Local Open Scope string_scope.
 
@@ -215,4 +234,369 @@ Example well_indented_met :
   detect_and_strip_indentation (map (indent_line "  ") ["  a"; "    b"; ""; " "]) = ["a"; "  b"; ""; " "].
 Proof. split; [exact well_indented_sample | vm_compute; reflexivity]. Qed.
 Example all_space_met : all_space (String (ascii_of_nat 9) "  ") = true.
+Proof. vm_compute. reflexivity. Qed.
+
+(* =========================================================================================== *)
+(* WHOLE-INPUT THEOREMS about the parser model                                                  *)
+(* =========================================================================================== *)
+
+(* ------------------------------------------------------------------------------------------- *)
+(* (a) trailing comments                                                                        *)
+(* ------------------------------------------------------------------------------------------- *)
+(* Vocabulary (Proofs/SurfaceProofs.v):
+     decorate dec ls     line i of ls gets  w ++ "//" ++ c  appended when dec[i] = Some (w, c)
+     sep_ok (w, c)       w is non-empty whitespace, c does not begin with `=` (the documented form
+                         ` // text` is w = " ", c = " text": admissible for every text)
+     story_mask ls       the lines the pre-pass rewrites, computed as the pre-pass itself decides:
+                         story lines (from the first `:: ` header on, plus `@start ` lines) outside
+                         @py:/<<py bodies and outside the continuation lines of a multi-line ~
+                         statement, plus the line that closes a Python block
+     bare_of l           what the pre-pass makes of a story line l: l without its comment, right-stripped
+                         when it had one (`out[i][:len - len(comment)].rstrip() if comment else out[i]`)
+     tidy l              rstrip (bare_of l) = bare_of l
+     decorable dec ls    every decoration sits on a line of the mask, is sep_ok, and its line is tidy *)
+
+(* One line: the pre-pass sees a decorated line as the undecorated one right-stripped.  No condition
+   on the line (it may already carry a comment, contain `\//` or `//=`, end in `/` or `\`). *)
+Theorem trailing_comment_seen_rstripped : forall l w c, sep_ok (w, c) = true ->
+  bare_of (l ++ w ++ "//" ++ c) = rstrip (bare_of l).
+Proof. exact bare_deco. Qed.
+Print Assumptions trailing_comment_seen_rstripped.
+
+(* The pre-pass: what is equal, precisely, for ANY lines (tidy or not): the pre-pass of the decorated
+   input is the pre-pass of the input with the decorated lines right-stripped. *)
+Theorem trailing_comments_prepass_rstrips : forall ls dec,
+  within dec (story_mask ls None false 0) = true ->
+  strip_comments_outside_python (decorate dec ls) None false 0 =
+  rstrip_at dec (strip_comments_outside_python ls None false 0).
+Proof. intros ls dec. exact (prepass_decorate_gen ls dec None false 0). Qed.
+Print Assumptions trailing_comments_prepass_rstrips.
+
+(* ... hence identical when the decorated lines have no trailing blank of their own. *)
+Theorem trailing_comments_invisible_to_prepass : forall ls dec,
+  decorable dec ls = true ->
+  strip_comments_outside_python (decorate dec ls) None false 0 =
+  strip_comments_outside_python ls None false 0.
+Proof. exact prepass_decorate. Qed.
+Print Assumptions trailing_comments_invisible_to_prepass.
+
+(* The clause of C17 for the modelled compiler: every line list, every set of decorated story lines,
+   every comment text, every oracle for Python's parser, EVERY block extractor. *)
+Theorem trailing_comments_invisible : forall pp is_call xs ls dec,
+  decorable dec ls = true ->
+  parse pp is_call xs (decorate dec ls) = parse pp is_call xs ls.
+Proof. exact parse_decorate. Qed.
+Print Assumptions trailing_comments_invisible.
+
+Theorem documented_comment_form_admissible : forall text, sep_ok (" ", " " ++ text) = true.
+Proof. exact documented_form_ok. Qed.
+Print Assumptions documented_comment_form_admissible.
+
+Theorem tidy_iff : forall l,
+  tidy l = true <-> (snd (strip_inline_comment l) <> "" \/ rstrip l = l).
+Proof. exact tidy_spec. Qed.
+Print Assumptions tidy_iff.
+
+(* non-vacuity: two passages, every block construct, every line kind; decorated on every line of the
+   mask, with the documented form, with comment text containing `//` and `<>`, with two blanks and no
+   blank after `//`, with a tab *)
+Definition pp0 : pyparse := mkPyparse (fun _ => true) (fun _ => Some (0, [])).
+Definition doc (t : string) : option dcomment := Some (" ", " " ++ t).
+Definition tab : string := String (ascii_of_nat 9) "".
+
+Definition sample_story : list string :=
+  ["import random"; "# preamble"; ":: Start ^intro"; "You have {hp} hp. \// not a comment";
+   "~ hp = 7 // 2"; "~ items = ["; "    1 // 1,"; "    2"; "]"; "n //= 2"; "glued<>";
+   "@py:"; "  z = 9 // 2"; "@endpy"; "<<py"; "  q = 1 // 1"; ">>";
+   "@if hp > 1:"; "  You live."; "  -> End"; "@else:"; "  + [Again] -> Start"; "@endif";
+   "@for i in items:"; "  {i}<>"; "@endfor";
+   "* [Rest] -> @join"; "    You rest."; "@join"; "+ [Go] -> End"; "-> End";
+   ":: End"; "Bye. // old comment"; ""].
+
+Definition sample_dec : list (option dcomment) :=
+  [None; None; doc "the first passage"; doc "c // d"; doc "x"; doc "list"; None; None; None;
+   Some ("  ", "no blank after"); doc "<>"; doc "block"; None; doc "end"; doc "legacy"; None; doc "close";
+   doc "cond"; doc "text"; doc "jump"; doc "else"; doc "choice"; doc "endif";
+   doc "loop"; doc "body"; doc "endfor";
+   doc "join choice"; doc "in block"; doc "marker"; doc "choice"; doc "jump";
+   doc "header"; doc "more"; Some (tab, "tab")].
+
+Example sample_decorated_looks_like :
+  firstn 6 (skipn 2 (decorate sample_dec sample_story)) =
+  [":: Start ^intro // the first passage";
+   "You have {hp} hp. \// not a comment // c // d";
+   "~ hp = 7 // 2 // x"; "~ items = [ // list"; "    1 // 1,"; "    2"].
+Proof. vm_compute. reflexivity. Qed.
+
+Example sample_meets_hypothesis : decorable sample_dec sample_story = true.
+Proof. vm_compute. reflexivity. Qed.
+
+(* which lines may be decorated: not the preamble, not the continuation lines of the ~ statement,
+   not the bodies of the two Python blocks *)
+Example sample_mask :
+  story_mask sample_story None false 0 =
+  [false; false; true; true; true; true; false; false; false; true; true;
+   true; false; true; true; false; true;
+   true; true; true; true; true; true; true; true; true;
+   true; true; true; true; true; true; true; true].
+Proof. vm_compute. reflexivity. Qed.
+
+Example sample_compiles_identically :
+  match ParseAllProofs.parse_real pp0 (fun _ => true) (decorate sample_dec sample_story),
+        ParseAllProofs.parse_real pp0 (fun _ => true) sample_story with
+  | POk a, POk b => story_eqb a b = true /\ List.length (passages a) = 2
+  | _, _ => False
+  end.
+Proof. vm_compute. split; reflexivity. Qed.
+
+(* the same by the theorem, for every oracle and every extractor *)
+Example sample_by_theorem : forall pp is_call xs,
+  parse pp is_call xs (decorate sample_dec sample_story) = parse pp is_call xs sample_story.
+Proof. intros. apply trailing_comments_invisible. exact sample_meets_hypothesis. Qed.
+
+(* the side conditions are exact.
+   1. Python code keeps Python's syntax: `//` inside an @py: body is floor division; such a line is
+      not in the mask, and decorating it does change the input of the main loop. *)
+Example python_body_not_decorable :
+  decorable [None; None; doc "c"; None] [":: S"; "@py:"; "x = 7 // 2"; "@endpy"] = false /\
+  strip_comments_outside_python [":: S"; "@py:"; "x = 7 // 2 // c"; "@endpy"] None false 0 =
+  [":: S"; "@py:"; "x = 7 // 2 // c"; "@endpy"].
+Proof. vm_compute. split; reflexivity. Qed.
+(*    the same for the continuation lines of a multi-line ~ statement *)
+Example continuation_not_decorable :
+  decorable [None; None; doc "c"; None; None] [":: S"; "~ x = ["; "  7 // 2"; "]"; "text"] = false /\
+  decorable [None; None; None; doc "c"; None] [":: S"; "~ x = ["; "  7 // 2"; "]"; "text"] = false /\
+  decorable [None; doc "c"; None; None; doc "d"] [":: S"; "~ x = ["; "  7 // 2"; "]"; "text"] = true.
+Proof. vm_compute. repeat split; reflexivity. Qed.
+(* 2. on the first line of a ~ statement `//` IS a comment, with or without the decoration (the model
+      and the real compiler agree; spec: "Variables: ~ var = value // comment") *)
+Example tilde_line_floor_division_is_a_comment :
+  strip_comments_outside_python [":: S"; "~ hp = 7 // 2"] None false 0 = [":: S"; "~ hp = 7"].
+Proof. vm_compute. reflexivity. Qed.
+(* 3. a comment text beginning with `=` is the operator `//=` *)
+Example equals_text_not_admissible :
+  sep_ok (" ", "= 2") = false /\
+  strip_comments_outside_python [":: S"; "n //= 2"] None false 0 = [":: S"; "n //= 2"].
+Proof. vm_compute. split; reflexivity. Qed.
+(* 4. without a blank before `//` the comment can fuse with the end of the line (`\` + `//`) *)
+Example empty_separator_not_admissible :
+  sep_ok ("", " c") = false /\
+  strip_comments_outside_python [":: S"; "a\" ++ "// c"] None false 0 = [":: S"; "a\// c"].
+Proof. vm_compute. split; reflexivity. Qed.
+(* 5. a line with trailing blanks of its own loses them when a comment is appended, and only then:
+      F17k (the real compiler does the same: text 'Hello   ' against 'Hello') *)
+Example trailing_blank_not_tidy :
+  tidy "Hello   " = false /\
+  strip_comments_outside_python [":: S"; "Hello   "] None false 0 = [":: S"; "Hello   "] /\
+  strip_comments_outside_python [":: S"; "Hello    // c"] None false 0 = [":: S"; "Hello"].
+Proof. vm_compute. repeat split; reflexivity. Qed.
+(* 6. lines before the first passage header are not story lines for the pre-pass *)
+Example preamble_not_decorable :
+  decorable [doc "c"] ["import x"; ":: S"] = false /\ decorable [None; doc "c"] ["import x"; ":: S"] = true.
+Proof. vm_compute. split; reflexivity. Qed.
+
+(* ------------------------------------------------------------------------------------------- *)
+(* (b) # comment lines at top level                                                             *)
+(* ------------------------------------------------------------------------------------------- *)
+(* Vocabulary:
+     insert_at k c ls     ls with the line c inserted in front of line k
+     is_hash c            the stripped line begins with `#`
+     top_level_at pp xs ls k   in front of line k the pre-pass is outside Python code (no open
+                          @py:/<<py block, no pending continuation line), the main loop arrives at
+                          index k (k is not inside a block that an extractor consumes) and is not
+                          inside the @metadata block
+     xs_local xs L k c    the extractors read only their own block: a block that ended before line k
+                          is extracted unchanged from the input with c inserted, a block that starts
+                          at or after line k is extracted from the shifted input as from the original
+                          (asked only at lines where the main loop calls an extractor)
+     erase                a diagnostic without the line index it carries (the inserted line shifts the
+                          indices after it); erase (POk s) = POk s *)
+
+(* the pre-pass passes a comment line through (without its own trailing // comment when it stands
+   in the story) and is otherwise undisturbed *)
+Theorem hash_line_through_prepass : forall k ls ins c,
+  prepass_at ls None false 0 k = Some (None, ins, 0) -> k < List.length ls -> is_hash c = true ->
+  strip_comments_outside_python (insert_at k c ls) None false 0 =
+  insert_at k (if ins then bare_of c else c) (strip_comments_outside_python ls None false 0).
+Proof. intros k ls ins c. exact (prepass_insert_gen k ls None false 0 ins c). Qed.
+Print Assumptions hash_line_through_prepass.
+
+Theorem hash_line_invisible_top_level : forall pp is_call xs ls k c,
+  extractors_ok xs ->
+  k < List.length ls -> is_hash c = true -> top_level_at pp xs ls k = true ->
+  (forall c', is_hash c' = true -> xs_local xs (strip_comments_outside_python ls None false 0) k c') ->
+  erase (parse pp is_call xs (insert_at k c ls)) = erase (parse pp is_call xs ls).
+Proof. exact hash_line_invisible_lemma. Qed.
+Print Assumptions hash_line_invisible_top_level.
+
+(* inputs in which every line is classified by the main loop itself: no condition on the extractors
+   beyond extractors_ok (which real_extractors and no_extractors satisfy) *)
+Theorem hash_line_invisible_blockfree : forall pp is_call xs ls k c,
+  extractors_ok xs ->
+  blockfree (strip_comments_outside_python ls None false 0) = true ->
+  k < List.length ls -> is_hash c = true -> top_level_at pp xs ls k = true ->
+  erase (parse pp is_call xs (insert_at k c ls)) = erase (parse pp is_call xs ls).
+Proof. exact hash_line_invisible_blockfree_lemma. Qed.
+Print Assumptions hash_line_invisible_blockfree.
+
+(* a story that compiles compiles to the very same story *)
+Theorem hash_line_same_story : forall pp is_call xs ls k c s,
+  extractors_ok xs ->
+  blockfree (strip_comments_outside_python ls None false 0) = true ->
+  k < List.length ls -> is_hash c = true -> top_level_at pp xs ls k = true ->
+  parse pp is_call xs ls = POk s -> parse pp is_call xs (insert_at k c ls) = POk s.
+Proof.
+  intros pp is_call xs ls k c s Hx Hb Hk Hc Ht Hs.
+  exact (erase_ok_eq _ _ _ s (hash_line_invisible_blockfree_lemma pp is_call xs ls k c Hx Hb Hk Hc Ht) Hs).
+Qed.
+Print Assumptions hash_line_same_story.
+
+(* non-vacuity: a block-free story with imports, two passages, a multi-line ~ statement, choices, a
+   jump, @hook, @render, @input, glue *)
+Definition plain_story : list string :=
+  ["import random"; ""; ":: Start(who=1) ^intro"; "Hello {who}.<>"; "~ items = ["; "    1,"; "    2]";
+   "@hook turn_end Tick"; "@render card(x)"; "@input name=""n"""; "+ [Go] -> End"; "* {who} [Stay] -> Start(2)";
+   ":: End"; "Bye."; "-> Tick"; ":: Tick"; "tick"].
+
+Example plain_story_blockfree : blockfree (strip_comments_outside_python plain_story None false 0) = true.
+Proof. vm_compute. reflexivity. Qed.
+
+Example plain_story_top_level_positions :
+  map (top_level_at pp0 ParseAllProofs.real_extractors plain_story) (seq 0 17) =
+  [true; true; true; true; true; false; false; true; true; true; true; true; true; true; true; true; true].
+Proof. vm_compute. reflexivity. Qed.
+
+Example plain_story_with_comments_compiles_identically :
+  forallb (fun k =>
+    match ParseAllProofs.parse_real pp0 (fun _ => true) (insert_at k "  # note // with a comment" plain_story),
+          ParseAllProofs.parse_real pp0 (fun _ => true) plain_story with
+    | POk a, POk b => story_eqb a b
+    | _, _ => false
+    end) [0; 1; 2; 3; 4; 7; 8; 9; 10; 11; 12; 13; 14; 15; 16] = true.
+Proof. vm_compute. reflexivity. Qed.
+
+Example plain_story_by_theorem : forall is_call k, In k [0; 1; 2; 3; 4; 7; 8; 9; 10; 11; 12; 13; 14; 15; 16] ->
+  erase (parse pp0 is_call ParseAllProofs.real_extractors (insert_at k "  # note // with a comment" plain_story)) =
+  erase (parse pp0 is_call ParseAllProofs.real_extractors plain_story).
+Proof.
+  intros is_call k Hk. apply hash_line_invisible_blockfree.
+  - exact ParseAllProofs.real_extractors_ok.
+  - exact plain_story_blockfree.
+  - simpl in Hk. repeat (destruct Hk as [<-|Hk]; [vm_compute; repeat constructor|]). destruct Hk.
+  - reflexivity.
+  - simpl in Hk. repeat (destruct Hk as [<-|Hk]; [vm_compute; reflexivity|]). destruct Hk.
+Qed.
+
+(* the positions that are excluded are excluded for a reason (model = real compiler on each):
+   inside a multi-line ~ statement the line is Python code; *)
+Example hash_inside_statement_is_code :
+  top_level_at pp0 ParseAllProofs.real_extractors plain_story 5 = false /\
+  strip_comments_outside_python (insert_at 5 "# c" plain_story) None false 0 =
+  insert_at 5 "# c" (strip_comments_outside_python plain_story None false 0).
+Proof. vm_compute. split; reflexivity. Qed.
+(* inside the @metadata block a # line ends the block (or becomes a key when indented with a colon): F17l *)
+Example hash_inside_metadata_changes_the_story :
+  top_level_at pp0 no_extractors ["@metadata"; "  title: X"; "  author: Y"; ":: Start"; "hi"] 2 = false /\
+  (match parse pp0 (fun _ => true) no_extractors ["@metadata"; "  title: X"; "  author: Y"; ":: Start"; "hi"],
+         parse pp0 (fun _ => true) no_extractors ["@metadata"; "  title: X"; "# note"; "  author: Y"; ":: Start"; "hi"] with
+   | POk a, POk b => metadata a = [("title", "X"); ("author", "Y")] /\ metadata b = [("title", "X")]
+   | _, _ => False
+   end).
+Proof. vm_compute. repeat split; reflexivity. Qed.
+(* a block in the input, concretely: same story, positions inside the blocks are not top level *)
+Example sample_story_hash_lines :
+  map (top_level_at pp0 ParseAllProofs.real_extractors sample_story) [2; 3; 6; 12; 18; 24; 27; 28; 31] =
+  [true; true; false; false; false; false; false; true; true] /\
+  forallb (fun k =>
+    match ParseAllProofs.parse_real pp0 (fun _ => true) (insert_at k "# note" sample_story),
+          ParseAllProofs.parse_real pp0 (fun _ => true) sample_story with
+    | POk a, POk b => story_eqb a b
+    | _, _ => false
+    end) [2; 3; 28; 31] = true.
+Proof. vm_compute. split; reflexivity. Qed.
+
+(* ------------------------------------------------------------------------------------------- *)
+(* (c) legacy `<<...>>` and `@...:` headers                                                      *)
+(* ------------------------------------------------------------------------------------------- *)
+(* cond_ok c : c is non-empty, has no blank at either end, no `/`, and no `>>` before its end
+   var_ok v  : v is non-empty, has no whitespace and no `/` *)
+
+(* whole block, extractor level: for every prefix, every body and rest of the input, every version of
+   the extractor (fixed/cap) and every line-level function record *)
+Theorem for_block_forms_agree_partial : forall fixed cap lf pre rest ind1 ind2 v coll,
+  var_ok v = true -> cond_ok coll = true -> all_space ind1 = true -> all_space ind2 = true ->
+  ParseBlocks.extract_loop_block_v fixed cap lf
+    (pre ++ (ind1 ++ "@for " ++ v ++ " in " ++ coll ++ ":") :: rest) (List.length pre) =
+  ParseBlocks.extract_loop_block_v fixed cap lf
+    (pre ++ (ind2 ++ "<<for " ++ v ++ " in " ++ coll ++ ">>") :: rest) (List.length pre).
+Proof. exact for_forms_agree_lemma. Qed.
+Print Assumptions for_block_forms_agree_partial.
+
+Theorem for_header_forms_read_back_partial : forall v coll, var_ok v = true -> cond_ok coll = true ->
+  ParseBlocks.match_for_colon ("@for " ++ v ++ " in " ++ coll ++ ":") = Some (v, coll) /\
+  ParseBlocks.match_for_legacy ("<<for " ++ v ++ " in " ++ coll ++ ">>") = Some (v, coll).
+Proof. intros v coll Hv Hc. split; [apply match_for_colon_forms|apply match_for_legacy_forms]; assumption. Qed.
+Print Assumptions for_header_forms_read_back_partial.
+
+(* header level: the opening line of a conditional block, in either form and at any indentation, puts
+   the extractor into the same state: one open branch with condition c *)
+Theorem if_forms_agree_partial : forall fixed lf rc rl lines start ind1 ind2 c st,
+  cond_ok c = true -> all_space ind1 = true -> all_space ind2 = true ->
+  ParseBlocks.cond_step fixed lf rc rl lines start start (ind1 ++ "@if " ++ c ++ ":") st =
+  ParseBlocks.cond_step fixed lf rc rl lines start start (ind2 ++ "<<if " ++ c ++ ">>") st.
+Proof. exact if_forms_agree_lemma. Qed.
+Print Assumptions if_forms_agree_partial.
+
+Theorem if_header_branch_condition_partial : forall fixed lf rc rl lines start ind c st,
+  cond_ok c = true -> all_space ind = true ->
+  ParseBlocks.cond_step fixed lf rc rl lines start start (ind ++ "@if " ++ c ++ ":") st =
+  POk (ParseBlocks.CNext (ParseBlocks.mkCstate (ParseBlocks.cs_branches st) (Some (c, [], [])) [] (Some c)) 1).
+Proof. exact if_header_at. Qed.
+Print Assumptions if_header_branch_condition_partial.
+
+Theorem elif_forms_agree_partial : forall fixed lf rc rl lines start i ind1 ind2 c st,
+  cond_ok c = true -> all_space ind1 = true -> all_space ind2 = true ->
+  ParseBlocks.cond_step fixed lf rc rl lines start i (ind1 ++ "@elif " ++ c ++ ":") st =
+  ParseBlocks.cond_step fixed lf rc rl lines start i (ind2 ++ "<<elif " ++ c ++ ">>") st.
+Proof. exact elif_forms_agree_lemma. Qed.
+Print Assumptions elif_forms_agree_partial.
+
+Theorem else_forms_agree_partial : forall fixed lf rc rl lines start i ind1 ind2 st,
+  all_space ind1 = true -> all_space ind2 = true ->
+  ParseBlocks.cond_step fixed lf rc rl lines start i (ind1 ++ "@else:") st =
+  ParseBlocks.cond_step fixed lf rc rl lines start i (ind2 ++ "<<else>>") st.
+Proof. exact else_forms_agree_lemma. Qed.
+Print Assumptions else_forms_agree_partial.
+
+Theorem endif_forms_agree_partial : forall fixed lf rc rl lines start i ind1 ind2 st,
+  all_space ind1 = true -> all_space ind2 = true ->
+  ParseBlocks.cond_step fixed lf rc rl lines start i (ind1 ++ "@endif") st =
+  ParseBlocks.cond_step fixed lf rc rl lines start i (ind2 ++ "<<endif>>") st.
+Proof. exact endif_forms_agree_lemma. Qed.
+Print Assumptions endif_forms_agree_partial.
+
+(* non-vacuity of the side conditions, and what they exclude *)
+Example cond_ok_met : cond_ok "hp > 1 and name == 'a:b'" = true /\ cond_ok "x[1:2]" = true /\ var_ok "item" = true.
+Proof. vm_compute. repeat split; reflexivity. Qed.
+Example cond_ok_excludes :
+  cond_ok "a >> 1" = false /\ cond_ok "x >" = false /\ cond_ok "n // 2" = false /\ cond_ok " x" = false /\ cond_ok "" = false.
+Proof. vm_compute. repeat split; reflexivity. Qed.
+Example shift_condition_differs :      (* `>>` inside the condition closes the legacy header early *)
+  ParseBlocks.match_legacy "<<if" "<<if a >> 1>>" = Some "a" /\
+  option_map strip (ParseBlocks.match_colon_tail "@if" "@if a >> 1:") = Some "a >> 1".
+Proof. vm_compute. split; reflexivity. Qed.
+
+(* a whole story in both header styles (and different indentation of the headers) *)
+Definition at_style : list string :=
+  [":: Start"; "@if hp > 1:"; "  strong"; "@elif hp == 1:"; "  weak"; "@else:"; "  dead"; "@endif";
+   "@for i in items:"; "  {i}<>"; "@endfor"; ":: End"; "Bye."].
+Definition legacy_style : list string :=
+  [":: Start"; "<<if hp > 1>>"; "  strong"; "  <<elif hp == 1>>"; "  weak"; "<<else>>"; "  dead"; " <<endif>>";
+   "  <<for i in items>>"; "  {i}<>"; "<<endfor>>"; ":: End"; "Bye."].
+Example header_styles_compile_identically :
+  match ParseAllProofs.parse_real pp0 (fun _ => true) at_style,
+        ParseAllProofs.parse_real pp0 (fun _ => true) legacy_style with
+  | POk a, POk b => story_eqb a b = true
+  | _, _ => False
+  end.
 Proof. vm_compute. reflexivity. Qed.
